@@ -26,7 +26,7 @@ func (em *emitter) emitNodes(nodes []ast.Node) {
 			em.fb.exitScope()
 
 		case *ast.Break:
-			if em.breakable {
+			if em.breakable || node.Label != nil && em.rangeInBreakable {
 				if em.breakLabel == nil {
 					label := em.fb.newLabel()
 					em.breakLabel = &label
@@ -1078,6 +1078,8 @@ func (em *emitter) emitForRange(node *ast.ForRange) {
 	inForRange := em.inForRange
 	em.inForRange = true
 	breakable := em.breakable
+	rangeInBreakable := em.rangeInBreakable
+	em.rangeInBreakable = breakable
 	em.breakable = false
 
 	em.fb.enterScope()
@@ -1157,6 +1159,7 @@ func (em *emitter) emitForRange(node *ast.ForRange) {
 	em.fb.exitScope()
 	em.inForRange = inForRange
 	em.breakable = breakable
+	em.rangeInBreakable = rangeInBreakable
 
 	if node.Else != nil {
 		endForLabel := em.fb.newLabel()
